@@ -1,5 +1,6 @@
 //! verif-harness: drives the real incan code for the correspondence checks.
 //! usage: verif-harness <property> <tier> <seed> <outfile> [extra...]
+mod c01;
 mod c03;
 mod c04;
 mod c05;
@@ -95,6 +96,10 @@ fn main() {
         "c20" => {
             let scratch = args.get(5).cloned().unwrap_or_else(|| "/verif/.build/scratch".to_string());
             c20::run(&mut out, tier, seed, &scratch)
+        }
+        "c01" => {
+            let scratch = args.get(5).cloned().unwrap_or_else(|| "/verif/.build/scratch".to_string());
+            c01::run(&mut out, tier, seed, &scratch)
         }
         "c03" => {
             let scratch = args.get(5).cloned().unwrap_or_else(|| "/verif/.build/scratch".to_string());
